@@ -1,5 +1,6 @@
 import Beetswap.Proofs.Server
 import Beetswap.Proofs.ServerLinkThms
+import Beetswap.Proofs.ServerLinkOrigin
 /-!
 # C07 — Server sends a peer only blocks it currently wants
 -/
@@ -84,6 +85,23 @@ dispatched to. -/
 theorem routed_to_own_peer (s : ServerLink.State) (hr : ServerLink.Reachable s) (c : Nat) (l : Link)
     (hl : s.links[c]? = some l) (e : Ev) (he : e ∈ l.cmds ∨ e ∈ l.delivered) : e.peer = l.peer :=
   Proofs.ServerLink.routed_to_own_peer s hr c l hl e he
+
+/-- … so every block written on a connection belongs to an event dispatched to that connection's peer. -/
+theorem written_from_own_event (s : ServerLink.State) (hr : ServerLink.Reachable s) (c : Nat) (l : Link)
+    (hl : s.links[c]? = some l) (b : Beetswap.Proto.Block) (hb : b ∈ writtenOf l.outs) :
+    ∃ e ∈ l.delivered, e.peer = l.peer ∧ b ∈ e.blocks.map encB :=
+  Proofs.ServerLink.written_from_own_event s hr c l hl b hb
+
+/-- C07 from the behaviour to the wire, for every schedule: every block that is ever written on a
+connection belongs to an event for that connection's peer which a drain of a reachable state put into
+the behaviour's queue — a state in which the peer's recorded wantlist held the block's CID and the
+bytes were available for it (`dispatched_was_wanted` carried along every path an event can take:
+queue, the swarm's pending event, a channel, a handler). -/
+theorem written_was_wanted (s : ServerLink.State) (hr : ServerLink.Reachable s) (c : Nat) (l : Link)
+    (hl : s.links[c]? = some l) (b : Beetswap.Proto.Block) (hb : b ∈ writtenOf l.outs) :
+    ∃ (s0 : ServerLink.State) (k d : Nat), ServerLink.Reachable s0 ∧ b = encB (k, d) ∧
+      Wants s0.sv l.peer k ∧ Available s0.sv k d :=
+  Proofs.ServerLink.written_was_wanted s hr c l hl b hb
 
 end Pipeline
 
